@@ -5,6 +5,7 @@ CONSTANTS
   Esc = "escape"
   Header = "first"
   Merge = "grid"
+  Sep = "each"
   MaxSpecial = 1
   FullCells = 3
 INVARIANTS TypeOK RoundTrip HeadingLevelOK
